@@ -13,3 +13,5 @@
 ; a message's type name and the base fee of that type (sdk.Msg.Type / GetFee; uninterpreted)
 (declare-fun msg_type_s (Iface) Str)
 (declare-fun msg_basefee_s (Iface) Int)
+; the immutable name of a store key
+(declare-fun sk_name (Iface) Str)
